@@ -1,12 +1,25 @@
 import SJ.Proofs.GoIterBase
 set_option linter.unusedVariables false
+set_option linter.unusedSimpArgs false
 /-
-GoIterLemmas — abstract stores.  The loops of the cursor functions are proved for *any* store in which the
-receiver's five variables hold the iterator (`HasIter`), so the lemmas below describe `Env.get`/`Env.set` and
-`iterAt` without looking at the shape of the association list.
+GoIterLemmas — abstract stores, and the exact functional reading of the three cursor loops.
+
+1. The loops of the cursor functions are proved for *any* store in which the receiver's five variables hold the
+   iterator, so the lemmas below describe `Env.get`/`Env.set` and `iterAt` without looking at the shape of the
+   association list (`Env.get_set`, `iterAt_set_ne`, `iterAt_get`, `iterAt_of_gets`, `setIter`).
+2. `advanceLoopG`, `advanceIntoLoopG`, `advanceIterLoopG` thread the *whole* iterator through the NOP-skipping loop
+   exactly as the Go code does (every iteration overwrites `i.t` and `i.cur`).  The hand model's loops
+   (`Iter.advanceLoop` …) thread only the offset and rebuild the iterator from the *initial* one at the exits; the
+   two agree except for the payload register (and, for `AdvanceIter`, the offset) of an iterator that ran off the
+   end of its view after skipping at least one NOP word — see `advanceLoop_eq_G`, `advanceIntoLoop_eq_G`,
+   `advanceIterLoop_eq_G` and the discussion in `GoIter.lean`.
+3. Calls: `call_calcNext_i`, `call_calcNext_dst`, `call_moveToEnd_i` run the callee's syntax tree on the copied
+   frame and copy the fields back (`setIter`).
 -/
 namespace SJ.GoIter
 open SJ SJ.GoSem SJ.Generated
+
+/-! ## stores -/
 
 theorem Env.get_set (e : Env) (k k' : String) (v : Val) :
     (e.set k v).get k' = if k = k' then some v else e.get k' := by
@@ -29,5 +42,195 @@ theorem Env.get_set_self (e : Env) (k : String) (v : Val) : (e.set k v).get k = 
 
 theorem Env.get_set_ne (e : Env) {k k' : String} (v : Val) (h : k ≠ k') : (e.set k v).get k' = e.get k' := by
   simp [Env.get_set, h]
+
+/-- the five variables of the iterator `pfx` -/
+def fieldsOf (pfx : String) : List String :=
+  [pfx ++ ".off", pfx ++ ".addNext", pfx ++ ".cur", pfx ++ ".t", pfx ++ ".lim"]
+
+/-- setting a variable that is not a field leaves the iterator alone -/
+theorem iterAt_set_ne (e : Env) (pfx k : String) (v : Val) (h : k ∉ fieldsOf pfx) :
+    iterAt (e.set k v) pfx = iterAt e pfx := by
+  simp only [fieldsOf, List.mem_cons, List.not_mem_nil, or_false, not_or] at h
+  obtain ⟨h1, h2, h3, h4, h5⟩ := h
+  simp only [iterAt, Env.get_set, if_neg h1, if_neg h2, if_neg h3, if_neg h4, if_neg h5]
+
+theorem iterAt_get (e : Env) (pfx : String) (i : Iter) (h : iterAt e pfx = some i) :
+    e.get (pfx ++ ".off") = some (.int i.off) ∧ e.get (pfx ++ ".addNext") = some (.int i.addNext) ∧
+    e.get (pfx ++ ".cur") = some (.u64 i.cur) ∧ e.get (pfx ++ ".t") = some (.u8 i.t) ∧
+    e.get (pfx ++ ".lim") = some (.int i.lim) := by
+  unfold iterAt at h
+  split at h
+  · rename_i o a c t l h1 h2 h3 h4 h5
+    split at h
+    · rename_i hh
+      simp only [Option.some.injEq] at h
+      subst h
+      simp only [h1, h2, h3, h4, h5]
+      simp [Int.toNat_of_nonneg hh.1, Int.toNat_of_nonneg hh.2]
+    · cases h
+  · cases h
+
+theorem iterAt_of_gets (e : Env) (pfx : String) (i : Iter)
+    (h1 : e.get (pfx ++ ".off") = some (.int i.off)) (h2 : e.get (pfx ++ ".addNext") = some (.int i.addNext))
+    (h3 : e.get (pfx ++ ".cur") = some (.u64 i.cur)) (h4 : e.get (pfx ++ ".t") = some (.u8 i.t))
+    (h5 : e.get (pfx ++ ".lim") = some (.int i.lim)) : iterAt e pfx = some i := by
+  simp [iterAt, h1, h2, h3, h4, h5]
+
+/-- two stores that agree on the fields hold the same iterator -/
+theorem iterAt_congr (e e' : Env) (pfx : String) (h : ∀ k, k ∈ fieldsOf pfx → e'.get k = e.get k) :
+    iterAt e' pfx = iterAt e pfx := by
+  simp only [fieldsOf, List.mem_cons, List.not_mem_nil, or_false] at h
+  simp only [iterAt, h (pfx ++ ".off") (by simp), h (pfx ++ ".addNext") (by simp), h (pfx ++ ".cur") (by simp),
+    h (pfx ++ ".t") (by simp), h (pfx ++ ".lim") (by simp)]
+
+/-- write the five variables of an iterator (what copying the receiver back does) -/
+def setIter (e : Env) (pfx : String) (j : Iter) : Env :=
+  ((((e.set (pfx ++ ".off") (.int j.off)).set (pfx ++ ".addNext") (.int j.addNext)).set (pfx ++ ".cur") (.u64 j.cur)).set
+    (pfx ++ ".t") (.u8 j.t)).set (pfx ++ ".lim") (.int j.lim)
+
+theorem iterAt_setIter_i (e : Env) (j : Iter) : iterAt (setIter e "i" j) "i" = some j := by
+  simp [iterAt, setIter, Env.get_set]
+
+theorem iterAt_setIter_dst (e : Env) (j : Iter) : iterAt (setIter e "dst" j) "dst" = some j := by
+  simp [iterAt, setIter, Env.get_set]
+
+theorem get_setIter_ne (e : Env) (pfx k : String) (j : Iter) (h : k ∉ fieldsOf pfx) :
+    (setIter e pfx j).get k = e.get k := by
+  simp only [fieldsOf, List.mem_cons, List.not_mem_nil, or_false, not_or] at h
+  obtain ⟨h1, h2, h3, h4, h5⟩ := h
+  simp only [setIter, Env.get_set, if_neg (Ne.symm h1), if_neg (Ne.symm h2), if_neg (Ne.symm h3), if_neg (Ne.symm h4),
+    if_neg (Ne.symm h5)]
+
+theorem iterAt_setIter_dst_i (e : Env) (j : Iter) : iterAt (setIter e "dst" j) "i" = iterAt e "i" := by
+  apply iterAt_congr
+  intro k hk
+  apply get_setIter_ne
+  revert k
+  decide
+
+theorem iterAt_setIter_i_dst (e : Env) (j : Iter) : iterAt (setIter e "i" j) "dst" = iterAt e "dst" := by
+  apply iterAt_congr
+  intro k hk
+  apply get_setIter_ne
+  revert k
+  decide
+
+/-! ## syntax -/
+
+/-- body of the first `for { }` of a statement list -/
+def firstLoop : List Stmt → List Stmt
+  | [] => []
+  | .loop b :: _ => b
+  | _ :: r => firstLoop r
+
+/-- the statements after the first `for { }` -/
+def afterLoop : List Stmt → List Stmt
+  | [] => []
+  | .loop _ :: r => r
+  | _ :: r => afterLoop r
+
+/-! ## words -/
+
+theorem payload_lt (v : UInt64) : (payloadOf v).toNat < 2^56 := by
+  simp only [payloadOf, wJSONVALUEMASK, UInt64.toNat_and]
+  have := @Nat.and_le_right v.toNat (72057594037927935)
+  simp at this ⊢
+  omega
+
+theorem toInt64_payload (v : UInt64) : toInt64 (payloadOf v) = ((payloadOf v).toNat : Int) :=
+  toInt64_small _ (by have := payload_lt v; omega)
+
+theorem payload_toNat_ne (v : UInt64) (h : ¬ payloadOf v = 0) : (payloadOf v).toNat ≠ 0 :=
+  fun hh => h (UInt64.toNat_inj.mp hh)
+
+theorem u64_le_zero (x : UInt64) : x ≤ 0 ↔ x = 0 := by
+  constructor
+  · intro h
+    apply UInt64.toNat_inj.mp
+    have : x.toNat ≤ (0 : UInt64).toNat := UInt64.le_iff_toNat_le.mp h
+    simp at this
+    simpa using this
+  · intro h; subst h; exact UInt64.le_refl _
+
+set_option maxRecDepth 4096 in
+theorem tagToType_end : tagToType 0 = 0 := by decide
+
+/-! ## the loops as Go runs them -/
+
+/-- the loop of `Advance`, threading the whole iterator (offset, tag and payload are overwritten by every iteration) -/
+def advanceLoopG (pj : PJ) (j : Iter) : Res (Iter × Bool) :=
+  if h : j.off >= j.lim then .ok ({ j with addNext := 0, t := tagEnd }, false)
+  else do
+    let v ← Iter.rdT pj j.off
+    if tagOf v == tagNop then
+      if payloadOf v == 0 then
+        .ok (Iter.moveToEnd { j with off := j.off + 1, cur := payloadOf v, t := tagOf v }, false)
+      else advanceLoopG pj { j with off := j.off + 1 + ((payloadOf v).toNat - 1), cur := payloadOf v, t := tagOf v }
+    else .ok ({ j with off := j.off + 1, cur := payloadOf v, t := tagOf v }, true)
+termination_by j.lim - j.off
+decreasing_by all_goals (simp_wf; omega)
+
+/-- the loop of `AdvanceInto` -/
+def advanceIntoLoopG (pj : PJ) (j : Iter) : Res (Iter × Bool) :=
+  if h : j.off >= j.lim then .ok ({ j with addNext := 0, t := tagEnd }, false)
+  else do
+    let v ← Iter.rdT pj j.off
+    if tagOf v == tagNop then
+      if hc : payloadOf v == 0 then .ok (Iter.moveToEnd { j with cur := payloadOf v, t := tagOf v }, false)
+      else advanceIntoLoopG pj { j with off := j.off + (payloadOf v).toNat, cur := payloadOf v, t := tagOf v }
+    else .ok ({ j with off := j.off + 1, cur := payloadOf v, t := tagOf v }, true)
+termination_by j.lim - j.off
+decreasing_by
+  have := u64_ne_zero_toNat hc
+  simp_wf; omega
+
+/-- the loop of `AdvanceIter`: `false` = the end of the view was reached exactly -/
+def advanceIterLoopG (pj : PJ) (j : Iter) : Res (Iter × Bool) :=
+  if j.off = j.lim then .ok ({ j with addNext := 0, t := tagEnd }, false)
+  else if _h : j.off > j.lim then .error .generic
+  else do
+    let v ← Iter.rdT pj j.off
+    if tagOf v == tagNop then
+      if payloadOf v == 0 then .error .generic
+      else advanceIterLoopG pj { j with off := j.off + 1 + ((payloadOf v).toNat - 1), cur := payloadOf v, t := tagOf v }
+    else .ok ({ j with off := j.off + 1, cur := payloadOf v, t := tagOf v }, true)
+termination_by j.lim - j.off
+decreasing_by all_goals (simp_wf; omega)
+
+/-- `Advance()` as Go runs it -/
+def advanceG (pj : PJ) (i : Iter) : Res (Iter × UInt8) := do
+  let o ← i.bump
+  let (i', live) ← advanceLoopG pj { i with off := o }
+  if !live then .ok (i', typeNone)
+  else
+    let i'' := i'.calcNext false
+    if i''.addNext < 0 then .ok (i''.moveToEnd, typeNone)
+    else .ok (i'', tagToType i''.t)
+
+/-- `AdvanceInto()` as Go runs it -/
+def advanceIntoG (pj : PJ) (i : Iter) : Res (Iter × UInt8) := do
+  let o ← i.bump
+  let (i', live) ← advanceIntoLoopG pj { i with off := o }
+  if !live then .ok (i', tagEnd)
+  else
+    let i'' := i'.calcNext true
+    if i''.addNext < 0 then .ok (i''.moveToEnd, tagEnd)
+    else .ok (i'', i''.t)
+
+/-- `AdvanceIter(dst)`, `dst ≠ i`, as Go runs it -/
+def advanceIterG (pj : PJ) (i dst : Iter) : Res (Iter × Iter × UInt8) := do
+  let o ← i.bump
+  let (i1, live) ← advanceIterLoopG pj { i with off := o }
+  if !live then .ok (i1, dst, typeNone)
+  else
+    let i2 := i1.calcNext false
+    if i2.addNext < 0 then .error .generic
+    else
+      let iEnd := i2.off + i2.addNext.toNat
+      let typ := tagToType i2.t
+      let d := i2.calcNext true
+      if d.addNext < 0 then .error .generic
+      else if iEnd > d.lim then .error .generic
+      else .ok (i2, { d with lim := iEnd }, typ)
 
 end SJ.GoIter
